@@ -19,7 +19,7 @@ OWN = {
     'C16': ('beam:tag-below-beta', 'beam:tag-beyond-pruning', 'beam:parse-needs-excluded-tag', 'astar:failed-but-derivable',
             'beam:cli-setting-altered'),
 }
-ALWAYS = ('sanitizer', 'crash', 'run:raises')
+ALWAYS = ('sanitizer', 'crash', 'run')
 
 
 def owned(prop, key):
@@ -57,8 +57,10 @@ class Engine:
         rng = random.Random(0)
         case = gen_case(rng, n_sent=3, nbest=1)
         out = self.run(case)
-        if out.get('error') or len(out['results']) != 3:
-            raise Inconclusive(f'pyxlite smoke batch failed: {out.get("error")}')
+        # an exception or a wrong number of result lists here comes from the code under test (translation and import problems
+        # were already reported by pyxlite.load): not a reason to stop, the workload itself will report it
+        if out.get('error') or len(out['results'] or ()) != 3:
+            self.R.count('smoke:batch-misbehaved')
 
     def violation(self, key, what, witness):
         if self.prop is None or owned(self.prop, key):
@@ -79,12 +81,20 @@ class Engine:
         self.rt.swallowed.clear()
         self.rt.ub_events.clear()
         g = case['grammar']
+        # the caller's own lists are handed over (not copies): they must come back unchanged
+        cats_before, roots_before = list(case['cats']), list(case['roots'])
         try:
-            results = self.P.run(doc, scores, list(case['cats']), list(case['roots']), case['binary'], case['unary'],
+            results = self.P.run(doc, scores, case['cats'], case['roots'], case['binary'], case['unary'],
                                  processes=1, max_chunk_size=10**6, **cfg)
             err = None
         except Exception as e:
             results, err = None, e
+        if case['cats'] != cats_before or case['roots'] != roots_before:
+            self.R.violation('batch:history-dependent' if self.prop in (None, 'C11') else 'run:caller-list-mutated',
+                             f'parsing.run changed the category/root list it was given ({len(cats_before)} -> {len(case["cats"])} '
+                             f'categories): the next call with the same list sees a different input', {'case': case_to_json(case)})
+            case['cats'][:] = cats_before
+            case['roots'][:] = roots_before
         return {'results': results, 'error': err, 'history': list(self.history), 'doc': doc,
                 'swallowed': list(self.rt.swallowed), 'ub': list(self.rt.ub_events)}
 
@@ -130,7 +140,7 @@ def gen_case(rng, n_sent=1, nbest=None, family=None, max_n=6, sparse=False, head
     g, hl = synth.random_grammar(rng, ncat, ntags, head_left=head_left, density=dens,
                                  max_results=2 if sparse else rng.choice((3, 3, 4)), mixed_heads=mixed_heads)
     cats = [synth.SCat(i) for i in range(ntags)]
-    nroots = rng.choice((1, 2, ncat // 2 + 1, ncat))
+    nroots = rng.choice((1, 2, ncat // 2 + 1, ncat)) if rng.random() > 0.03 else 0      # rarely: no allowed root at all
     roots = [synth.SCat(i) for i in rng.sample(range(ncat), nroots)]
     family = family or rng.choice(('uniform', 'deceptive', 'ties', 'softmax', 'uniform64'))
     sentences = []
